@@ -1492,6 +1492,21 @@ class FnAnalysis:
                 outs.append((s, ("unit",)))
                 continue
             fn = e.get("fn") or ("<method:%s>" % e["name"])
+            if fn in ("core::option::Option::<T>::map", "core::option::Option::<T>::and_then") and len(vals) == 2 and isinstance(vals[1], tuple) and vals[1] and vals[1][0] == "clos" \
+                    and isinstance(vals[0], tuple) and vals[0] and vals[0][0] == "bin" and vals[0][1] in ("+", "-", "*") and (e["recv"].get("ty") or "").startswith("core::option::Option<"):
+                # `a.checked_op(b).map(f)`: f runs only when the arithmetic succeeded — both outcomes are explored, each knowing which one it is
+                node = getattr(self, "clos_nodes", {}).get(vals[1][1])
+                if node is not None and len(node["params"]) == 1:
+                    s.events = [x for x in s.events if x.clos != vals[1][1]]
+                    s_none = s.fork()
+                    self.ev(s_none, "decide", e, how="tryopt", outcome=False, cond=vals[0], cond_node=e["recv"])
+                    outs.append((s_none, ("call", "core::option::Option::None", (), None)))
+                    self.ev(s, "decide", e, how="tryopt", outcome=True, cond=vals[0], cond_node=e["recv"])
+                    self.bind(s, node["params"][0], vals[0], e["recv"])
+                    for s3, v3 in self.eval(node["body"], s):
+                        if s3.ctrl is None:
+                            outs.append((s3, v3))
+                    continue
             if fn.startswith("std::collections::hash::map::Entry::") and fn.endswith("::or_insert_with") and len(vals) == 2 and isinstance(vals[1], tuple) and vals[1] and vals[1][0] == "clos":
                 # `map.entry(k).or_insert_with(f)`: occupied → the stored value; vacant → f() is inserted and handed back
                 node = getattr(self, "clos_nodes", {}).get(vals[1][1])
@@ -1634,6 +1649,12 @@ class FnAnalysis:
                     self.ev(st, "call", e, fn=fn, args=tuple(vals), arg_nodes=arg_nodes, recv=recv_node, ret=v2, effects=(), uid=None, tys=tys,
                             argkeys=[frozenset() for _ in arg_nodes], pos_before={}, pos_after={}, direct=None, targs=e.get("targs"), resolved=e.get("resolved"))
                     return v2
+        if fn.startswith("core::option::Option::<") and name in ("as_ref", "as_mut", "as_deref", "as_deref_mut", "copied", "cloned") and len(vals) == 1:
+            v0 = vals[0]
+            while isinstance(v0, tuple) and v0 and v0[0] == "mut":
+                v0 = v0[1]
+            if isinstance(v0, tuple) and v0 and v0[0] == "call" and v0[3] is None and v0[1] in ("core::option::Option::None", "core::option::Option::Some"):
+                return v0      # a view of a visible None / Some(x) is that None / Some(x)
         if fn in ("core::mem::replace", "core::mem::take") and arg_nodes and arg_nodes[0]["k"] == "Ref" and arg_nodes[0].get("mut"):
             place = arg_nodes[0]["e"]
             rv = self.root_var(place)
@@ -1817,6 +1838,26 @@ def _ctor_match(v, pat):
     if pat is None:
         return None
     k = pat.get("k")
+    if k == "Tuple":
+        # component-wise against a visible tuple: one certain mismatch rules the arm out, all certain matches select it
+        vv = v
+        while isinstance(vv, tuple) and vv and vv[0] == "mut":
+            vv = vv[1]
+        if isinstance(vv, tuple) and vv and vv[0] == "tup" and len(vv[1]) == len(pat.get("pats") or []) and pat.get("dd") is None:
+            res = []
+            for sp, comp in zip(pat["pats"], vv[1]):
+                q = sp
+                while q is not None and q.get("k") in ("RefPat",):
+                    q = q.get("pat")
+                if q is not None and (q.get("k") == "Wild" or (q.get("k") == "Bind" and q.get("sub") is None)):
+                    res.append(True)
+                else:
+                    res.append(_ctor_match(comp, sp))
+            if False in res:
+                return False
+            if all(r is True for r in res):
+                return True
+        return None
     if k == "TupleStruct":
         pc = pat.get("ctor")
     elif k == "PathPat":
